@@ -58,6 +58,7 @@ class NTr:
         self.subscripts = subscripts or {}
         self.locals = {}            # temporaries: name -> expression of their single assignment (inlined on demand)
         self._busy = set()
+        self.helpers = {}           # private methods that may be inlined: name -> FunctionDef (straight-line ifs ending in returns)
 
     def resolve(self, e):
         """follow aliases: a name bound once to another expression stands for that expression"""
@@ -124,11 +125,37 @@ class NTr:
             key = (f, tuple(dotted(a) for a in e.args))
             if key in self.oracles:
                 return self.param(self.oracles[key])
+            if f is not None and f.startswith('self.') and f[5:] in self.helpers and f[5:] not in self._busy:
+                h = self.helpers[f[5:]]
+                names = [a.arg for a in h.args.args][1:]
+                if len(names) != len(e.args) or h.args.vararg or h.args.kwarg or h.args.kwonlyargs:
+                    raise Untranslatable('call of helper %s with other than its positional parameters' % f)
+                henv = {n: ('T', self.num(a, env)) for n, a in zip(names, e.args)}
+                self._busy.add(f[5:])
+                try:
+                    return self.returned(strip_doc(h.body), henv)
+                finally:
+                    self._busy.discard(f[5:])
         if isinstance(e, ast.Subscript):
             key = (dotted(self.resolve(e.value)), dotted(e.slice) or ast.unparse(e.slice))
             if key in self.subscripts:
                 return self.param(self.subscripts[key])
         raise Untranslatable('numeric expression %s' % ast.dump(e)[:90])
+
+    def returned(self, stmts, env):
+        """the value a straight-line helper returns: scalar assignments, ifs, returns"""
+        if not stmts:
+            raise Untranslatable('a helper reaches its end without returning')
+        s_, rest = stmts[0], stmts[1:]
+        if isinstance(s_, ast.Return) and s_.value is not None:
+            return self.num(s_.value, env)
+        if isinstance(s_, ast.Assign) and len(s_.targets) == 1 and isinstance(s_.targets[0], ast.Name):
+            env2 = dict(env)
+            env2[s_.targets[0].id] = ('T', self.num(s_.value, env))
+            return self.returned(rest, env2)
+        if isinstance(s_, ast.If):
+            return '(if %s then %s else %s)' % (self.boo(s_.test, env), self.returned(s_.body + rest, env), self.returned(s_.orelse + rest, env))
+        raise Untranslatable('statement %s in a helper' % type(s_).__name__)
 
     # ---- boolean expressions
     def boo(self, e, env):
@@ -545,7 +572,61 @@ def t_veitch_inc():
     return 'Definition src_veitch_inc {T : Type} `{Num T} %s : T := %s.' % (tr.signature(['dk', 'accepted']), found)
 
 
+def t_ss():
+    """SSAdaptiveSupport._update: the factor alpha as a function of the acceptance count, the step count, the window start and the
+    target rate (straight-line code up to the branch on isdiagonal); in the diagonal branch, the factor actually applied to the
+    widths and the test under which it is applied (`mx` stands for the largest current width, self._std.max())"""
+    f = find_func('epsie/proposals/normal.py', 'SSAdaptiveSupport', '_update')
+    body = strip_doc(f.body)
+
+    def on_diag(s_):
+        return isinstance(s_, ast.If) and (dotted(s_.test) == 'self.isdiagonal' or (
+            isinstance(s_.test, ast.UnaryOp) and isinstance(s_.test.op, ast.Not) and dotted(s_.test.operand) == 'self.isdiagonal'))
+    tree = ast.parse(open(os.path.join(REPO, 'epsie/proposals/normal.py')).read())
+    helpers = {m.name: m for c in tree.body if isinstance(c, ast.ClassDef) and c.name == 'SSAdaptiveSupport'
+               for m in c.body if isinstance(m, ast.FunctionDef) and m.name.startswith('_') and m.name not in ('_update', '__init__')}
+    tr = NTr(any_attr=True)
+    tr.helpers = helpers
+    for p_ in ('a_n_accepted', 'a_nsteps', 'a_start_step', 'a_target_rate'):
+        tr.param(p_)
+    env, tgt = sym_walk(tr, body, {}, on_diag)
+    if tgt is None or 'alpha' not in {k for k in env} and not any(v for v in env):
+        raise Untranslatable('SSAdaptiveSupport._update: no branch on self.isdiagonal reached by straight-line code')
+    # the factor: whatever local the diagonal branch multiplies the widths by
+    tr2 = NTr(any_attr=True, oracles={('self._std.max', ()): 'mx'})
+    tr2.param('alpha0')
+    tr2.param('mx')
+
+    def applies(s_):
+        return isinstance(s_, ast.AugAssign) and dotted(s_.target) == 'self._std' and isinstance(s_.op, ast.Mult)
+    diag_body = tgt.body if dotted(tgt.test) == 'self.isdiagonal' else tgt.orelse
+    napply = sum(1 for st in diag_body for m in ast.walk(st) if applies(m))
+    if napply != 1:
+        raise Untranslatable('SSAdaptiveSupport._update: expected exactly one `self._std *= ..` in the diagonal branch')
+    # walk the diagonal branch with every scalar local of the prefix standing for itself: only `alpha` (whatever it is called) matters
+    names = [k for k, v in env.items() if v[0] == 'T']
+    # find the local holding the factor: the one the prefix's chain of ifs assigned
+    guard = [s_ for s_ in diag_body if isinstance(s_, ast.If) and any(applies(m) for m in ast.walk(s_))]
+    if len(guard) != 1 or guard[0].orelse:
+        raise Untranslatable('SSAdaptiveSupport._update: the widths are not updated under a single guard without else')
+    g = guard[0]
+    app = [m for m in ast.walk(g) if applies(m)][0]
+    if not isinstance(app.value, ast.Name) or app.value.id not in names:
+        raise Untranslatable('SSAdaptiveSupport._update: the widths are not multiplied by a scalar local of the prefix')
+    fac = app.value.id
+    alpha_expr = env[fac][1]
+    env2, _ = sym_walk(tr2, diag_body[:diag_body.index(g)], {fac: ('T', 'alpha0')}, None)
+    factor = env2[fac][1]
+    test = tr2.boo(g.test, env2)
+    out = ['Definition src_ss_alpha {T : Type} `{Num T} %s : T := %s.'
+           % (tr.signature(['a_n_accepted', 'a_nsteps', 'a_start_step', 'a_target_rate']), alpha_expr),
+           'Definition src_ss_diag_factor {T : Type} `{Num T} (alpha0 : T) : T := %s.' % factor,
+           'Definition src_ss_diag_applies {T : Type} `{Num T} %s : bool := %s.' % (tr2.signature(['alpha0', 'mx']), test)]
+    return '\n\n'.join(out)
+
+
 ADAPT_TARGETS = (
+    ('src_ss_alpha', t_ss),
     ('src_veitch_inc', t_veitch_inc),
     ('src_at_log', lambda: t_log_step('src_at_log', 'epsie/proposals/normal.py', 'ATAdaptiveSupport', '_update', '_log_lambda',
                                       skip_call='self._componentwise_scaling')),
